@@ -65,7 +65,7 @@ func init() {
 		Quick:    Tier{Params: map[string]int{"exts": 1, "extras": 1, "name_len": 1, "sizes": 1, "any_shapes": 1, "ref_primary": 1, "sec_reqs": 2, "sec_empty": 1, "vary": 0}},
 		Thorough: Tier{Params: map[string]int{"exts": 1, "extras": 1, "name_len": 1, "sizes": 1, "any_shapes": 1, "ref_primary": 1, "sec_reqs": 2, "sec_empty": 1, "vary": 0}},
 		Bounds: []string{
-			"per type (Schema, Parameter, Items, Header, Response, Operation, Swagger): the symbolic normal-form document of C01 (every keyword's presence symbolic, numeric validations unconstrained 64-bit values incl. zero) is decoded, sent through gob.Encoder/Decoder, and the JSON encodings before and after are compared member by member",
+			"per type (Schema, Parameter, Items, Header, Response, Responses, Operation, PathItem, Paths, Swagger; a security requirement may be the empty object): the symbolic normal-form document of C01 (every keyword's presence symbolic, numeric validations unconstrained 64-bit values incl. zero) is decoded, sent through gob.Encoder/Decoder, and the JSON encodings before and after are compared member by member",
 			"free-form payloads (default, example, enum, extensions, unknown keywords, examples) are one rich value: string, number, booleans, nulls, empty objects, nesting, zero, and (under a symbolic bit, no fork) empty arrays",
 			"security: two requirements, the second with an optional scheme with an empty scope list; $ref in {#/definitions/Pet, other.json#/definitions/Pet, http://h.example/s.json, #, \"\"}",
 		},
